@@ -61,6 +61,18 @@ Skeletons2 == {
   << "g", "(", "k2", "=", "a", ",", "k1", "=", "b", ")" >>, << "f", "(", ")" >>,
   << "f", "(", "a", ",", ")" >>, << "t", "[", "a", "?B", "b", "]" >>, << "f", "(", "a", ")", "?B", "g", "(", "b", ")" >>,
   << "f", "(", "g", "(", "a", ")", ",", "b", ")" >>, << "t", "[", "0", "]", ".", "p" >>,
+  \* argument lists inside argument lists: every call keeps its own positional and keyword
+  \* arguments (a call in the value of a later keyword, an inner call with keywords of its own -
+  \* same and other names -, a positional argument after an inner call that had keywords)
+  << "f", "(", "k1", "=", "a", ",", "k2", "=", "g", "(", "b", ")", ")" >>,
+  << "f", "(", "k1", "=", "g", "(", "k2", "=", "a", ")", ",", "k2", "=", "b", ")" >>,
+  << "f", "(", "k1", "=", "g", "(", "k1", "=", "a", ")", ",", "k2", "=", "b", ")" >>,
+  << "f", "(", "g", "(", "k1", "=", "a", ")", ",", "b", ")" >>,
+  << "f", "(", "g", "(", "k1", "=", "a", ")", ",", "k1", "=", "b", ")" >>,
+  << "f", "(", "a", ",", "k1", "=", "b", ",", "k2", "=", "g", "(", "c", ",", "k1", "=", "d", ")", ")" >>,
+  << "f", "(", "k1", "=", "a", ",", "k2", "=", "b", "?B", "g", "(", "c", ")", ")" >>,
+  << "f", "(", "k1", "=", "g", "(", "k2", "=", "a", ")", "?B", "b", ")" >>,
+  << "f", "(", "k1", "=", "a", ",", "k2", "=", "g", "(", "f", "(", "k1", "=", "b", ")", ")", ")" >>,
   \* tuples
   << "a", ",", "b" >>, << "(", "a", ",", "b", ")" >>, << "(", "a", ",", ")" >>, << "a", "," >>,
   << "(", "a", ",", "b", ",", ")" >>, << "(", ")" >>, << "a", "?B", "b", ",", "c" >>,
